@@ -85,6 +85,19 @@ def run_tlc(module, cfg, workdir, workers=NCPU, env=None, extra=(), timeout=3600
     return res, out
 
 
+DOCUMENTED_EXC = ('UnexpectedToken', 'UnexpectedCharacters', 'ParserError')
+
+
+def exc_name(ex):
+    """the class an exception is reported under: the nearest ancestor that is a built-in exception class or one of the
+    library's documented parser errors.  A library-defined SUBCLASS of RuntimeError is a RuntimeError for every stated
+    property ("raises RuntimeError"), so it is reported as RuntimeError."""
+    for cls in type(ex).__mro__:
+        if cls.__module__ == 'builtins' or cls.__name__ in DOCUMENTED_EXC:
+            return cls.__name__
+    return type(ex).__name__
+
+
 def _nonull(x):
     """TLC's JSON module cannot read null: drop record fields that are None, write None inside lists as the string 'None'"""
     if isinstance(x, dict):
